@@ -1443,9 +1443,16 @@ impl Block {
                 total_number_of_non_fee_transactions += 1;
             }
 
-            if (transaction.is_golden_ticket() || transaction.is_normal_transaction())
-                && !transaction.is_atr_transaction()
-            {
+            // every transaction a user can submit pays its fee into the block: NFT (bound), VIP
+            // and staking transactions included, otherwise what they leave unclaimed is lost
+            if matches!(
+                transaction.transaction_type,
+                TransactionType::GoldenTicket
+                    | TransactionType::Normal
+                    | TransactionType::Bound
+                    | TransactionType::Vip
+                    | TransactionType::BlockStake
+            ) {
                 cv.total_bytes_new += transaction.get_serialized_size() as u64;
                 cv.total_fees_new += transaction.total_fees;
             }
